@@ -798,9 +798,13 @@ func mergeMaps(dst, src map[string]any) (map[string]any, bool) {
 		return dst, changed
 	}
 
-	if dst == nil {
-		dst = make(map[string]any)
+	// Do not modify dst in place: the caller may be holding it as a cached value which
+	// must stay intact if saving the merged value fails.
+	merged := make(map[string]any, len(dst)+len(src))
+	for key, val := range dst {
+		merged[key] = val
 	}
+	dst = merged
 
 	for key, val := range src {
 		xval := reflect.ValueOf(val)
